@@ -1,6 +1,13 @@
+from vlib.props import pcommon
 from vlib.props import lr_props
 
 
 def check(run, only=None):
     if only in (None, "B"):
         run.add_bounded(lr_props.run_bounded("C08", run.tier))
+    if only in (None, "P"):
+        from vlib.companions import parserfuncs as pf
+        pcommon.add_proof(run, "C08", ["parglare.parser.Token.__init__", "parglare.parser.Token.__len__",
+                                       "parglare.parser.Token.end_position", "parglare.grammar.StringRecognizer.__call__"],
+                          [pf.run_misc],
+                          "Token length/end_position arithmetic; case-sensitive StringRecognizer returns exactly the text at pos")
